@@ -170,7 +170,8 @@ func (g *gen13) set(depth int) *xset {
 	}
 	switch g.rng.Intn(4) {
 	case 0:
-		return &xset{kind: 7, sub: []*xset{g.set(depth - 1)}}
+		g.marker++
+		return &xset{kind: 7, id: g.marker, sub: []*xset{g.set(depth - 1)}}
 	case 1:
 		return &xset{kind: 6, sub: []*xset{g.set(depth - 1), g.set(depth - 1)}}
 	default:
